@@ -47,6 +47,7 @@ type step struct {
 	Prog  prog           `json:"prog"`
 	Blk   []int          `json:"blk"`
 	Dblk  bool           `json:"dblk"`
+	Eblk  bool           `json:"eblk"`
 	Real  map[string]int `json:"real"`
 	Latch int            `json:"latch"`
 	Seq   *seqRef        `json:"seq"`
@@ -79,7 +80,7 @@ func (f *finding) set(v bool, key, what string) {
 func progsOf(in input) []prog {
 	ps := make([]prog, in.K)
 	for i := range ps {
-		ps[i] = prog{Lock: map[string]string{}, Ops: [][]string{}, Fate: "ok"}
+		ps[i] = prog{World: "N", Lock: map[string]string{}, Ops: [][]string{}, Fate: "ok"}
 		for _, a := range in.Acc {
 			ps[i].Lock[a] = "N"
 		}
@@ -111,6 +112,7 @@ func runScheduled(e *env, in input, height int64, f *finding) (*blockRun, string
 	}
 	s := r.s
 	att := make([]int, in.K+1)
+	cancelled := false
 	pre := map[string]bool{} // gates granted ahead of the model step (parked goroutines)
 	desync := func(i int, what string) string {
 		// the real execution left the behaviour: let it run to the end and judge the outcome only
@@ -138,6 +140,17 @@ func runScheduled(e *env, in input, height int64, f *finding) (*blockRun, string
 			}
 			s.grant(key)
 			prep := fmt.Sprintf("prepared:%d", st.T)
+			if st.Op == "topfail" && cancelled {
+				// the dispatcher stops without reporting anything: nothing may be prepared any more
+				time.Sleep(cancelGrace)
+				if s.hasNote(prep) || s.hasNote(fmt.Sprintf("future:%d", st.T)) {
+					f.set(true, "parexec:dispatch-after-cancel", fmt.Sprintf("step %d: tx %d was dispatched although the transition had been cancelled", i, st.T))
+				}
+				return r, afterCancel(s)
+			}
+			if st.Op == "top" && st.Prog.Ens {
+				prep = fmt.Sprintf("future:%d", st.T) // Prepare stops in front of Ensure()
+			}
 			if !s.wait(stepTimeout, func() bool { _, a := s.notes[prep]; _, b := s.notes["result"]; return a || b }) {
 				return r, desync(i, fmt.Sprintf("dispatcher neither prepared tx %d nor returned", st.T))
 			}
@@ -149,6 +162,38 @@ func runScheduled(e *env, in input, height int64, f *finding) (*blockRun, string
 					return r, desync(i, fmt.Sprintf("dispatcher went on with tx %d although the model has an error latched (tx %d failed)", st.T, st.Latch))
 				}
 				return r, "err"
+			}
+			if st.Op == "top" && st.Eblk {
+				// the model says Ensure has to wait for a commit: let the dispatcher run into it, it must not return
+				ek := fmt.Sprintf("ensure:%d", st.T)
+				if s.waitArrived(ek, stepTimeout) {
+					pre[ek] = true
+					s.grant(ek)
+					time.Sleep(parkCheck)
+					if s.hasNote(fmt.Sprintf("prepared:%d", st.T)) {
+						f.set(false, "", fmt.Sprintf("step %d: Ensure of tx %d returned although the model says it has to wait for a commit", i, st.T))
+					}
+				}
+			}
+		case "cancel":
+			r.mu.Lock()
+			c := r.cancel
+			r.mu.Unlock()
+			if c == nil || !c() {
+				f.set(true, "parexec:cancel-refused", fmt.Sprintf("step %d: the canceler of a running transition returned false", i))
+			}
+			cancelled = true
+			r.didCancel = true
+		case "ensure":
+			ek := fmt.Sprintf("ensure:%d", st.T)
+			if !pre[ek] {
+				if !s.waitArrived(ek, stepTimeout) {
+					return r, desync(i, fmt.Sprintf("Prepare of tx %d did not reach Ensure", st.T))
+				}
+				s.grant(ek)
+			}
+			if _, ok := s.waitNote(fmt.Sprintf("prepared:%d", st.T), stepTimeout); !ok {
+				return r, desync(i, fmt.Sprintf("Ensure of tx %d did not return although its dependencies are committed in the model", st.T))
 			}
 		case "spawn":
 			// the dispatcher passes ec.Ready(), starts the goroutine and comes around to the next loop top
@@ -176,9 +221,13 @@ func runScheduled(e *env, in input, height int64, f *finding) (*blockRun, string
 			if !ok {
 				return r, desync(i, fmt.Sprintf("operation %d of tx %d did not complete although its dependency is committed in the model", st.I, st.T))
 			}
-			if st.K == "r" && val != st.Val {
-				f.set(true, "parexec:read-not-sequential", fmt.Sprintf("step %d: tx %d operation %d read %s = %d, the specification (= sequential execution) says %d",
-					i, st.T, st.I, st.A, val, st.Val))
+			want := st.Val
+			if seq := in.Steps[len(in.Steps)-1].Seq; seq != nil && st.T <= seq.First {
+				want = seq.Reads[st.T-1][st.I-1] // the sequential reference does not depend on the schedule
+			}
+			if st.K == "r" && val != want {
+				f.set(true, "parexec:read-not-sequential"+wrSuffix(in), fmt.Sprintf("step %d: tx %d operation %d read %s = %d, the specification (= sequential execution) says %d",
+					i, st.T, st.I, st.A, val, want))
 			}
 		case "end":
 			key := fmt.Sprintf("end:%d:%d", st.T, att[st.T])
@@ -205,6 +254,9 @@ func runScheduled(e *env, in input, height int64, f *finding) (*blockRun, string
 				return r, desync(i, "dispatcher did not reach the end of the list")
 			}
 			s.grant(key)
+			if cancelled {
+				return r, afterCancel(s)
+			}
 			if _, ok := s.waitNote("result", stepTimeout); !ok {
 				f.set(false, "", fmt.Sprintf("step %d: the block never finished", i))
 				return r, ""
@@ -247,6 +299,31 @@ func runScheduled(e *env, in input, height int64, f *finding) (*blockRun, string
 	return r, desync(len(in.Steps), "behaviour ended before the block finished")
 }
 
+// wrSuffix marks blocks that contain a world-read-lock transaction (an input class of its own in violation keys).
+func wrSuffix(in input) string {
+	for _, p := range progsOf(in) {
+		if p.World == "R" {
+			return ":world-read-lock"
+		}
+	}
+	return ""
+}
+
+const cancelGrace = 60 * time.Millisecond
+
+// afterCancel: a cancelled transition must not report anything; everything still parked is released first.
+func afterCancel(s *sched) string {
+	s.setFree()
+	time.Sleep(cancelGrace)
+	if s.hasNote("result:ok") {
+		return "ok"
+	}
+	if s.hasNote("result:err") {
+		return "err"
+	}
+	return "cancelled"
+}
+
 func nextOp(rest []step, t int) int {
 	for _, s := range rest {
 		if s.T == t && s.Op == "step" {
@@ -263,7 +340,7 @@ func nextOp(rest []step, t int) int {
 // every gate is followed by a seeded random delay so that the goroutines interleave differently each time.
 func runFree(e *env, in input, level int, height int64, f *finding, jitter *rand.Rand) (*blockRun, string) {
 	r := &blockRun{s: newSched(true), progs: progsOf(in), accounts: makeAccounts(in.Acc, in.Salt),
-		pltFail: in.Plt != nil && *in.Plt, rerun: in.Rerun != nil && *in.Rerun}
+		pltFail: in.Plt != nil && *in.Plt, rerun: in.Rerun != nil && *in.Rerun, cancelAt: cancelPoint(in)}
 	if jitter != nil {
 		var jmu sync.Mutex
 		r.s.delay = func(string) {
@@ -277,6 +354,25 @@ func runFree(e *env, in input, level int, height int64, f *finding, jitter *rand
 		f.set(false, "", "cannot start the transition: "+err.Error())
 		return r, ""
 	}
+	if r.cancelAt > 0 {
+		// cancelled from inside the block (when transaction cancelAt starts): afterwards nothing may be reported
+		if !r.s.wait(stepTimeout, func() bool {
+			_, a := r.s.notes["cancel-accepted"]
+			_, b := r.s.notes["cancel-refused"]
+			_, c := r.s.notes["result"]
+			return a || b || c
+		}) {
+			f.set(false, "", fmt.Sprintf("level %d: the block neither reached the cancel point nor finished", level))
+			return r, ""
+		}
+		if r.s.hasNote("cancel-refused") {
+			f.set(true, "parexec:cancel-refused", fmt.Sprintf("level %d: the canceler of a running transition returned false", level))
+		}
+		if r.s.hasNote("cancel-accepted") {
+			r.didCancel = true
+			return r, afterCancel(r.s)
+		}
+	}
 	if _, ok := r.s.waitNote("result", stepTimeout); !ok {
 		f.set(false, "", fmt.Sprintf("level %d: the block never finished", level))
 		return r, ""
@@ -285,6 +381,19 @@ func runFree(e *env, in input, level int, height int64, f *finding, jitter *rand
 		return r, "ok"
 	}
 	return r, "err"
+}
+
+// cancelPoint: the transaction at whose start the free-running executions cancel (0: the behaviour has no cancel step).
+func cancelPoint(in input) int {
+	for _, s := range in.Steps {
+		if s.Op == "cancel" {
+			if s.T < 1 {
+				return 1
+			}
+			return s.T
+		}
+	}
+	return 0
 }
 
 // traceOf turns the recorder's events into the per-thread form Trace_ParallelExec.tla reads.
@@ -379,17 +488,33 @@ func runCase(e *env, in input, caseNo int, out *tlaio.Out, id string, detail int
 		}
 		for _, rd := range fr.reads {
 			if rd.T <= seq.First && rd.Val != seq.Reads[rd.T-1][rd.I-1] {
-				f.set(true, "parexec:read-not-sequential", fmt.Sprintf("free-running concurrent execution (level %d): tx %d operation %d read %s = %d, sequential execution gives %d",
+				f.set(true, "parexec:read-not-sequential"+wrSuffix(in), fmt.Sprintf("free-running concurrent execution (level %d): tx %d operation %d read %s = %d, sequential execution gives %d",
 					in.Level, rd.T, rd.I, rd.A, rd.Val, seq.Reads[rd.T-1][rd.I-1]))
 			}
 		}
-		trace = traceOf(fr, in.K, fres)
+		if !fr.didCancel && cancelPoint(in) == 0 {
+			trace = traceOf(fr, in.K, fres)
+		}
 	}
 	return f, trace
 }
 
 // judge evaluates the verdict-bearing predicates on the outcome of one real execution.
 func judge(e *env, who string, level int, r *blockRun, res, want string, failing int, seq *seqRef, in input, f *finding) []byte {
+	if r.didCancel {
+		// a cancelled transition reports nothing and has no result
+		if res != "cancelled" {
+			f.set(true, who+":result-after-cancel", fmt.Sprintf("%s (level %d): the canceler returned true while transactions were in flight, "+
+				"afterwards the transition still reported %q", who, level, res))
+		} else if r.tr.Result() != nil {
+			f.set(true, who+":result-after-cancel", fmt.Sprintf("%s (level %d): a cancelled transition has a result", who, level))
+		}
+		return nil
+	}
+	if res == "cancelled" {
+		f.set(false, "", fmt.Sprintf("%s (level %d): the transition reported nothing although it was not cancelled", who, level))
+		return nil
+	}
 	if res != want {
 		if res == "ok" {
 			f.set(true, who+":fatal-error-not-latched", fmt.Sprintf("%s (level %d): tx %d of %d fails with a non-retryable / retry-exhausted error (fate %s) "+
@@ -412,7 +537,7 @@ func judge(e *env, who string, level int, r *blockRun, res, want string, failing
 	}
 	for a, v := range seq.Final {
 		if bal[a] != v {
-			f.set(true, who+":final-state-differs", fmt.Sprintf("%s (level %d): final value of %s is %d, sequential execution gives %d", who, level, a, bal[a], v))
+			f.set(true, who+":final-state-differs"+wrSuffix(in), fmt.Sprintf("%s (level %d): final value of %s is %d, sequential execution gives %d", who, level, a, bal[a], v))
 		}
 	}
 	return hash
@@ -424,7 +549,7 @@ func sig(in input) string {
 	for _, s := range in.Steps {
 		fmt.Fprintf(&b, "%s%d.%d", s.Op[:2], s.T, s.I)
 		if s.Op == "top" {
-			fmt.Fprintf(&b, "%v%v%v%s", s.Prog.World, s.Prog.Lock, s.Prog.Ops, s.Prog.Fate)
+			fmt.Fprintf(&b, "%v%v%v%v%s", s.Prog.World, s.Prog.Ens, s.Prog.Lock, s.Prog.Ops, s.Prog.Fate)
 		}
 		b.WriteByte(';')
 	}
